@@ -251,6 +251,21 @@ def tlc(module, cfg, workers=1, env=None, timeout=900, xmx='3g', xss='512m', ext
     return r
 
 
+def tlaps(module, timeout=600):
+    """check the TLAPS proofs of spec/<module>.tla (copied with the modules it extends into a scratch directory: tlapm writes its
+    cache next to the source).  Returns dict(ok, proved, out).  Proofs concern the specification only."""
+    d = os.path.join(WORK, 'tlaps', '%d-%s' % (os.getpid(), module))
+    shutil.rmtree(d, ignore_errors=True)
+    os.makedirs(d)
+    for f in glob.glob(os.path.join(SPEC, '*.tla')):
+        shutil.copy(f, d)
+    t0 = time.time()
+    rc, out = sh(['tlapm', '--cleanfp', '--threads', '4', module + '.tla'], timeout=timeout, cwd=d, check=False)
+    shutil.rmtree(d, ignore_errors=True)
+    m = re.search(r'All (\d+) obligations? proved', out)
+    return {'ok': rc == 0 and bool(m), 'proved': int(m.group(1)) if m else 0, 'out': out[-1500:], 'wall': time.time() - t0, 'rc': rc}
+
+
 def tlc_error_summary(out, n=40):
     lines = out.splitlines()
     for i, l in enumerate(lines):
